@@ -237,7 +237,7 @@ Context (vc : vcfg) (sc : scfg) (pkts : list packet) (version : N) (o : list ins
 Let cdps := map (mk_cdp sc) (selected sc 0 pkts).
 Context (Hwf : Forall wf_pkt pkts).
 Context (Hsize : total_size pkts < 9223372036854775808).
-Context (Hlay : forall p, In p pkts -> layout_rp (hdr p) (p_payload p)).
+Context (Hlay : sc_skip sc = true \/ forall p, In p pkts -> layout_rp (hdr p) (p_payload p)).
 Context (Hplain : il_plain o = true).
 Context (Hknown : forall y, In (IS_sysid y) o -> known_sysid y = true).
 Context (Htl : forall i, In i tl -> match i with IS_seen _ | IS_filtered _ | IS_payload _ => True | _ => False end).
@@ -262,7 +262,7 @@ Lemma cdps_layout : Forall layout_ok cdps.
 Proof.
   rewrite Forall_forall. intros p Hp. destruct (cdps_from p Hp) as (op & Hop & ->).
   pose proof (with_offsets_in _ _ _ Hop) as Hin. unfold layout_ok, mk_cdp. cbn [c_rdh c_payload].
-  destruct (sc_skip sc); [exact I|]. exact (Hlay _ Hin).
+  destruct (sc_skip sc) eqn:Esk; [exact I|]. destruct Hlay as [X|X]; [discriminate X|exact (X _ Hin)].
 Qed.
 
 Lemma sel_sub id : forall q, In q (sel vc id cdps) -> In q cdps /\ disp_id vc q = id.
@@ -370,14 +370,14 @@ Context (Hoff : Gen.Facts.cdp_offset_sampled_after = true).
 Context (Hwf : Forall wf_pkt pkts).
 Context (Hn : N.of_nat (length pkts) < U32_MAX).
 Context (Hpay : pay_all pkts < U32_MAX).
-Context (Hlay : forall p, In p pkts -> layout_rp (hdr p) (p_payload p)).
+Context (Hlay : sc_skip (rc_scan c) = true \/ forall p, In p pkts -> layout_rp (hdr p) (p_payload p)).
 Context (Hknown : forall p r, pkts = p :: r -> known_sysid (r_system_id (hdr p)) = true).
 
 Let input := serialize pkts.
 Let cdps := map (mk_cdp (rc_scan c)) (selected (rc_scan c) 0 pkts).
 
 Lemma whole_size : total_size pkts < 9223372036854775808.
-Proof. rewrite total_size_sum. unfold U32_MAX in *. lia. Qed.
+Proof. clear - Hn Hpay. rewrite total_size_sum. unfold U32_MAX in *. lia. Qed.
 
 Lemma whole_streams : exists o tl,
   sender_streams c input =
